@@ -53,7 +53,8 @@ ClosedRefutes == phase = "refuted" => /\ Tier(AsPrems(WrapAssumed(cand)), PS(Fal
 NearMissRefuted == (Judged(cand) /\ cand.mut \in {"nm.outerhyp", "nm.intonly", "nm.strict", "nm.offbyone", "nm.binminus", "nm.zerodiv", "nm.freevar", "nm.shape", "nm.arity", "nm.vars", "nm.noteq", "nm.quant", "nm.arith"})
                       => (Tier(cand.prems, ResOfRule(cand)) # "none" /\ ~Entailed(cand.prems, ResOfRule(cand)))
 \* whole proofs (spec -> code): commands of smt/veriT/command.py
-Cmd(k, id, rule, f, cl, pm) == [k |-> k, id |-> id, rule |-> rule, t |-> f, cl |-> cl, pm |-> pm]
+CmdX(k, id, rule, f, cl, pm, cx) == [k |-> k, id |-> id, rule |-> rule, t |-> f, cl |-> cl, pm |-> pm, ctx |-> cx]
+Cmd(k, id, rule, f, cl, pm) == CmdX(k, id, rule, f, cl, pm, <<>>)
 Ids(prefix, n) == [j \in 1..n |-> prefix \o ToString(j)]
 ProofOf(i) ==
   LET m == Len(i.prems) n == Len(i.cl) IN
@@ -68,12 +69,39 @@ LeakProof(A) ==
    cmds |-> << Cmd("anchor", "t2", "", TrueC, <<>>, <<>>), Cmd("assume", "t2.a0", "", A, <<>>, <<>>),
                Cmd("step", "t2.t1", "verit_or", TrueC, <<A>>, <<"t2.a0">>), Cmd("step", "t2", "verit_subproof", TrueC, <<Neg(A), A>>, <<>>),
                Cmd("assume", "a1", "", Neg(A), <<>>, <<>>), Cmd("step", "t3", "verit_th_resolution", TrueC, <<>>, <<"t2.t1", "a1">>) >>]
+\* NESTED anchors (a quantifier renaming inside a quantifier renaming): the inner subproof uses the equation x1 = y1 of the OUTER
+\* context (refl + cong), so the inner bind step must keep that hypothesis; a later step cites the inner bind step (which the
+\* reference refuses: it lies in a closed subproof) and resolves with the two assumptions.  The assumed formulas are satisfiable;
+\* only together with x1 = y1 are they contradictory.  Binder names matter here: vectors use named abstractions <<"abs", name, T, body>>.
+nx == <<"var","x1",TA>>   ny == <<"var","y1",TA>>   nz == <<"var","z1",TA>>   nw == <<"var","w1",TA>>
+QN(q, name, body) == App(IF q = "all" THEN AllC(TA) ELSE ExC(TA), <<"abs", name, TA, body>>)
+NestedProof(q) ==
+  LET inL == QN(q, "z1", F2(pQ, nx, B0))   inR == QN(q, "w1", F2(pQ, ny, B0))
+      outL == QN(q, "x1", QN(q, "z1", F2(pQ, B1x, B0)))   outR == QN(q, "y1", QN(q, "w1", F2(pQ, B1x, B0)))
+      c1 == << <<"x1", ny>> >>   c2 == << <<"x1", ny>>, <<"z1", nw>> >> IN
+  [kind |-> "nested/bind-" \o q,
+   cmds |-> << Cmd("assume", "a0", "", inL, <<>>, <<>>), Cmd("assume", "a1", "", Neg(inR), <<>>, <<>>),
+               CmdX("anchor", "t1", "", TrueC, <<>>, <<>>, c1),
+               CmdX("step", "t1.t1", "verit_refl", TrueC, <<Eqa(nx, ny)>>, <<>>, c1),
+               CmdX("anchor", "t1.t2", "", TrueC, <<>>, <<>>, c2),
+               CmdX("step", "t1.t2.t1", "verit_refl", TrueC, <<Eqa(nz, nw)>>, <<>>, c2),
+               CmdX("step", "t1.t2.t2", "verit_cong", TrueC, <<Iff(F2(pQ, nx, nz), F2(pQ, ny, nw))>>, <<"t1.t1", "t1.t2.t1">>, c2),
+               CmdX("step", "t1.t2", "verit_bind", TrueC, <<Iff(inL, inR)>>, <<>>, c2),
+               CmdX("step", "t1", "verit_bind", TrueC, <<Iff(outL, outR)>>, <<>>, c1),
+               Cmd("step", "t2", "verit_equiv1", TrueC, <<Neg(inL), inR>>, <<"t1.t2">>),
+               Cmd("step", "t3", "verit_th_resolution", TrueC, <<>>, <<"t2", "a0", "a1">>) >>]
+\* the same formulas nameless, for the design-level sanity of the scenario: satisfiable alone, contradictory with x1 = y1
+NestedAssumed(q) == LET Q(b) == IF q = "all" THEN All(TA, b) ELSE Ex(TA, b) IN << Q(F2(pQ, nx, B0)), Neg(Q(F2(pQ, ny, B0))) >>
+ASSUME NestedSane == \A q \in {"all", "exists"} :
+                       /\ ~Entailed(AsPrems(NestedAssumed(q)), PS(FalseC))
+                       /\ Entailed(AsPrems(NestedAssumed(q) \o <<Eqa(nx, ny)>>), PS(FalseC))
 \* ------------------------------------------------------------------ emission of the candidates as vectors (spec -> code), once, at start-up
 ToJ(i) == [rule |-> i.rule, mut |-> i.mut, prems |-> i.prems, cl |-> i.cl, sizes |-> i.x.sizes, coeffs |-> i.x.coeffs, inst |-> i.x.inst, ctx |-> i.x.ctx]
 ASSUME Emitted == LET cs == SetToSeq(Candidates) IN
                   /\ ndJsonSerialize(IOEnv.VECTOR_FILE, [k \in 1..Len(cs) |-> ToJ(cs[k])])
                   /\ LET ws == SetToSeq({ c \in Candidates : Wrappable(c) }) IN
-                     /\ ndJsonSerialize(IOEnv.PROOF_FILE, [k \in 1..Len(ws) |-> ProofOf(ws[k])] \o SetToSeq({ LeakProof(A) : A \in {vp, Neg(vq)} }))
+                     /\ ndJsonSerialize(IOEnv.PROOF_FILE, [k \in 1..Len(ws) |-> ProofOf(ws[k])] \o SetToSeq({ LeakProof(A) : A \in {vp, Neg(vq)} })
+                                                            \o << NestedProof("all"), NestedProof("exists") >>)
                      /\ PrintT(<<"proofs", Len(ws)>>)
                   /\ PrintT(<<"vectors", Len(cs), "intended", Cardinality(Intended), "rules", Cardinality(Rules)>>)
 =============================================================================
